@@ -119,7 +119,7 @@ def tlc_cases(ctx):
 
 
 def tv(ctx, evs, name, shards=None, demo=False):
-    shards = shards or min(10 if ctx.tier == 'thorough' else 3, max(1, len(evs) // 800))
+    shards = shards or (max(1, len(evs) // 2500) if ctx.tier == 'thorough' else min(3, max(1, len(evs) // 800)))
     chunks = [list(range(i, len(evs), shards)) for i in range(shards)]
     cfg = 'SPECIFICATION TSpec\nPOSTCONDITION Consumed\nCHECK_DEADLOCK FALSE\n'
 
@@ -132,7 +132,7 @@ def tv(ctx, evs, name, shards=None, demo=False):
         core = [idx[int(m.group(1)) - 1] for m in (re.match(r'<<"CORE",\s*(\d+)>>', ln) for ln in res.raw_printed) if m]
         return [(idx[l - 1], s) for l, s in rej], [idx[l - 1] for l in drift], core
     rejects, drifts, cores = {}, [], []
-    with ThreadPoolExecutor(max_workers=shards) as ex:
+    with ThreadPoolExecutor(max_workers=min(shards, 10)) as ex:
         for rej, dr, co in ex.map(one, range(shards)):
             for i, s in rej:
                 rejects[i] = s
